@@ -246,7 +246,7 @@ func writeGroupIni(cmd *Command, group *Group, namespace string, writer io.Write
 		kind := val.Type().Kind()
 		switch kind {
 		case reflect.Slice:
-			kind = val.Type().Elem().Kind()
+			kind = iniValueKind(val.Type().Elem())
 
 			if val.Len() == 0 {
 				writeOption(writer, oname, kind, "", "", true, option.iniQuote)
@@ -258,7 +258,7 @@ func writeGroupIni(cmd *Command, group *Group, namespace string, writer io.Write
 				}
 			}
 		case reflect.Map:
-			kind = val.Type().Elem().Kind()
+			kind = iniValueKind(val.Type().Elem())
 
 			if val.Len() == 0 {
 				writeOption(writer, oname, kind, "", "", true, option.iniQuote)
@@ -280,6 +280,18 @@ func writeGroupIni(cmd *Command, group *Group, namespace string, writer io.Write
 					writeOption(writer, oname, kind, k, v, commentOption, option.iniQuote)
 				}
 			}
+		case reflect.Ptr:
+			kind = iniValueKind(val.Type())
+
+			if val.IsNil() {
+				// There is no value to write, show the option commented
+				// out (like an empty slice)
+				writeOption(writer, oname, kind, "", "", true, option.iniQuote)
+			} else {
+				v, _ := convertToString(val, option.tag)
+
+				writeOption(writer, oname, kind, "", v, commentOption, option.iniQuote)
+			}
 		default:
 			v, _ := convertToString(val, option.tag)
 
@@ -296,8 +308,25 @@ func writeGroupIni(cmd *Command, group *Group, namespace string, writer io.Write
 	}
 }
 
+// iniValueKind returns the kind of the values of type tp as they are written
+// to an ini file (pointers are written as what they point to).
+func iniValueKind(tp reflect.Type) reflect.Kind {
+	for tp.Kind() == reflect.Ptr {
+		tp = tp.Elem()
+	}
+
+	return tp.Kind()
+}
+
+// iniNeedsQuote returns whether a string value has to be written as a quoted
+// string to be read back unchanged: the reader trims surrounding white space
+// and takes a leading double quote as the start of a quoted string.
+func iniNeedsQuote(s string) bool {
+	return !isPrint(s) || strings.TrimSpace(s) != s || strings.HasPrefix(s, "\"")
+}
+
 func writeOption(writer io.Writer, optionName string, optionType reflect.Kind, optionKey string, optionValue string, commentOption bool, forceQuote bool) {
-	if forceQuote || (optionType == reflect.String && !isPrint(optionValue)) {
+	if forceQuote || (optionType == reflect.String && iniNeedsQuote(optionValue)) {
 		optionValue = strconv.Quote(optionValue)
 	}
 
